@@ -30,7 +30,7 @@ NSucc(v) ==
   \cup {X("ChangeScheme", [x EXCEPT !.schf = m]) : m \in {0, 1, 2, 3} \ {x.schf}}
   \cup (IF ~B.hasuser THEN {X("AddUserinfo", [x EXCEPT !.ui = m]) : m \in {0, 1, 2} \ {x.ui}} ELSE {})
   \cup (IF Len(x.sub) < 2 THEN {X("AddIrrelevantLabel", [x EXCEPT !.sub = <<l>> \o x.sub]) : l \in SubLabels} ELSE {})
-  \cup (IF ~x.ampouter /\ IdnaRow(B.host[1]) = 0 /\ (\A i \in 1..Len(x.sub) : x.sub[i] \notin LangLabels) THEN {X("AmpDashPrefix", [x EXCEPT !.ampdash = ~x.ampdash])} ELSE {})
+  \cup (IF ~x.ampouter /\ (\A i \in 1..Len(x.sub) : x.sub[i] \notin LangLabels) THEN {X("AmpDashPrefix", [x EXCEPT !.ampdash = ~x.ampdash])} ELSE {})
   \cup (IF x.sub = <<>> /\ ~x.ampdash /\ ~x.ampouter THEN {X("AmpDashIrrelevantLabel", [x EXCEPT !.sub = <<l>>, !.ampouter = TRUE]) : l \in {WWW, <<109>>}} ELSE {})
   \* both default ports are irrelevant whatever the scheme (by 'scheme or absence of scheme' + 'explicit default port')
   \cup (IF ~FpMode /\ B.port = <<>> /\ x.port = <<>> /\ ~u.dp THEN {X("ExplicitDefaultPort", [x EXCEPT !.port = p]) : p \in {<<56,48>>, <<52,52,51>>}} ELSE {})
